@@ -27,4 +27,5 @@ def run(repo: Repo, tier: str, res: CheckResult, seed: int = 0) -> None:
     n2 = genprog.c03_dumper_checks(repo, tier, res, seed)
     res.count("TV.loader-programs", n1, 300)
     res.count("TV.dumper-programs", n2, 200)
+    genprog.c03_layout_checks(repo, tier, res, seed)
     res.assumptions = list(ASSUMPTIONS)
